@@ -370,7 +370,7 @@ ID = lambda rng, pool: rng.choice(pool)
 
 def gen_spec(rng, thorough=False):
     """random diagram: <= 4 entities, every attribute kind / option, names around the length limits, case variants"""
-    focus = rng.choice(['plain', 'plain', 'long30', 'long63', 'case', 'custom', 'long1024' if rng.random() < 0.3 else 'plain'])
+    focus = rng.choice(['plain', 'plain', 'inherit', 'inherit', 'long30', 'long63', 'case', 'custom', 'long1024' if rng.random() < 0.3 else 'plain'])
     def long_id(prefix, ln):
         return (prefix + 'abcdefghij' * (ln // 10 + 1))[:ln]
     def ent_name(i):
@@ -397,7 +397,7 @@ def gen_spec(rng, thorough=False):
         if focus == 'long30': pool = pool + [long_id(kind[0], ln) for ln in (29, 30, 31)]
         if focus == 'long63': pool = pool + [long_id(kind[0], ln) for ln in (62, 63, 64)]
         return rng.choice(pool)
-    n_ent = rng.choice([1, 2, 2, 3, 3, 4])
+    n_ent = rng.choice([1, 2, 2, 3, 3, 4]) if focus != 'inherit' else rng.choice([3, 4, 4])
     ents = []
     used_names = set()
     for i in range(n_ent):
@@ -405,8 +405,8 @@ def gen_spec(rng, thorough=False):
         while nm in used_names: nm = nm + 'X'
         used_names.add(nm)
         e = {'name': nm, 'attrs': [], 'composites': [], 'used': set(), 'bases': None}
-        if i > 0 and rng.random() < 0.3:
-            base = rng.choice(ents)
+        if (i > 0 and rng.random() < 0.3) or (focus == 'inherit' and i > 1 and rng.random() < 0.8):
+            base = rng.choice(ents) if focus != 'inherit' else rng.choice(ents[1:])
             e['bases'] = [base['name']]
             if rng.random() < 0.9: e['used'] = base['used']      # one name pool per hierarchy (else: 'hides base attribute' rejections)
             if rng.random() < 0.15 and len(ents) > 1: e['bases'].append(rng.choice([x for x in ents if x['name'] != e['bases'][0]])['name'])
@@ -439,10 +439,12 @@ def gen_spec(rng, thorough=False):
             e['attrs'].append({'name': attr_name(e['used']), 'type': 'str', 'kind': 'Discriminator', 'column': custom('column')})
         e['own_pk'] = own_pk
     # relationships
-    n_rel = rng.choice([0, 1, 1, 2, 2, 3])
+    n_rel = rng.choice([0, 1, 1, 2, 2, 3]) if focus != 'inherit' else rng.choice([1, 2, 2, 3])
     for _ in range(n_rel):
         e1 = rng.choice(ents); e2 = rng.choice(ents)
         kind = rng.choice(['o2m', 'o2m', 'm2m', 'm2m', 'o2o', 'sym'])
+        if focus == 'inherit' and rng.random() < 0.7:      # references to the composite-key entity, declared in (sub)classes
+            e1 = ents[0]; e2 = rng.choice(ents[1:]); kind = rng.choice(['o2m', 'o2m', 'o2m', 'o2o', 'm2m'])
         if kind == 'sym':
             n1 = attr_name(e1['used'])
             a = {'name': n1, 'kind': 'Set', 'target': e1['name'], 'reverse': n1}
@@ -495,6 +497,11 @@ def gen_spec(rng, thorough=False):
         req = [a['name'] for a in e['attrs'] if a['kind'] == 'Required' and a.get('type') != 'float']
         if is_root(e) and not e['own_pk'] and len(req) >= 2 and rng.random() < 0.3:
             e['composites'].append({'f': 'PrimaryKey', 'attrs': rng.sample(req, 2)}); e['own_pk'] = True
+    if focus == 'inherit' and not ents[0]['own_pk'] and not any(a['kind'] == 'PrimaryKey' for a in ents[0]['attrs']):
+        e0 = ents[0]
+        k1 = attr_name(e0['used']); k2 = attr_name(e0['used'])
+        e0['attrs'][:0] = [{'name': k1, 'type': 'str', 'kind': 'Required'}, {'name': k2, 'type': 'int', 'kind': 'Required'}]
+        e0['composites'].append({'f': 'PrimaryKey', 'attrs': [k1, k2]}); e0['own_pk'] = True
     for e in ents:
         e.pop('used'); e.pop('own_pk')
         for a in e['attrs']:
@@ -558,14 +565,7 @@ def real_attr_state(db):
                         'reverseColumns': list(getattr(a, 'reverse_columns', None) or []), 'table': getattr(a, 'table', None)})
     return out
 
-def run_real_mapping_src(src, dialect, sqlite_real=False):
-    global diagram_src
-    saved = diagram_src
-    diagram_src = lambda s: src
-    try: return run_real_mapping(None, dialect, sqlite_real)
-    finally: diagram_src = saved
-
-def run_real_mapping(spec, dialect, sqlite_real=False):
+def run_real_mapping(src, dialect, sqlite_real=False):
     """build the diagram, extract declarations, run the real generate_mapping. Returns dict(decls, linked, outcome, db)"""
     if sqlite_real:
         db = Database(); db.bind('sqlite', ':memory:')
@@ -573,7 +573,7 @@ def run_real_mapping(spec, dialect, sqlite_real=False):
         db = TestDatabase(); db.bind(dialect, ':memory:')
     res = {'db': db, 'decls': None, 'linked': False}
     try:
-        build(spec, db)
+        exec(HEADER + src, {'db': db})
     except Exception as e:
         res['define_error'] = exc_cls(e); return res
     decls = extract_decls(db)
@@ -623,6 +623,39 @@ def ci_collisions(schema_json):
         tl = [t['name'].lower() for t in schema_json['tables']]
         out.append('table' if len(set(tl)) != len(tl) else 'index')
     return out
+
+class _Skip(Exception): pass
+
+def store_objects(ctx, db, inp):
+    """store one valid object of EVERY entity (each base and each subclass of a hierarchy share a table): values for the
+    required attributes only; an integrity error of the database on such an object means the created schema does not
+    match the entity model (e.g. a NOT NULL column for an attribute the entity does not have)"""
+    counter = itertools.count(1)
+    def make(entity, depth):
+        if depth > 5: raise _Skip()
+        kw = {}
+        for a in entity._attrs_:
+            if a.is_collection or a.is_discriminator or not a.is_required or a.auto: continue
+            if a.reverse: kw[a.name] = make(a.py_type, depth + 1)
+            elif a.py_type is int: kw[a.name] = next(counter)
+            elif a.py_type is str: kw[a.name] = 's%d' % next(counter)
+            else: raise _Skip()
+        return entity(**kw)
+    for entity in sorted(db.entities.values(), key=lambda e: e._id_):
+        try:
+            with core.db_session:
+                make(entity, 0)
+                core.flush()
+            ctx.count('stored-object')
+        except _Skip:
+            ctx.count('store-skipped (cycle of required references)')
+        except (core.TransactionIntegrityError, core.IntegrityError) as e:
+            ctx.violation('a valid %s object (required attributes only) cannot be stored in the schema Pony created: %s' % (entity.__name__, str(e)[:200]),
+                          dict(inp, entity=entity.__name__), observed=exc_cls(e), expected='stored', key='store-integrity-error')
+        except Exception as e:
+            ctx.count('store-other:' + exc_cls(e))
+            ctx.extra.setdefault('store_other_samples', [])
+            if len(ctx.extra['store_other_samples']) < 5: ctx.extra['store_other_samples'].append([entity.__name__, exc_cls(e), str(e)[:160], inp['source'][:600]])
 
 def sqlite_oracle(ctx, spec, src, res, model_ok):
     """the property on real SQLite for an ACCEPTED diagram"""
@@ -697,6 +730,7 @@ def sqlite_oracle(ctx, spec, src, res, model_ok):
                 if not any(f['parent'] == pt and f['cols'] == list(a.columns) for f in c['fks']):
                     ctx.violation('relationship attribute has no foreign key in the created table', dict(inp, attr=repr(a)), observed=c['fks'],
                                   expected=[pt, a.columns], key='entity-fk')
+    store_objects(ctx, db, inp)
     try:
         db.check_tables()
         ctx.count('check_tables-ok')
@@ -766,15 +800,42 @@ def ddl_oracle(ctx, spec, src, dialect, res, decls):
                                   dict(inp, attr=e['name'] + '.' + a['name']), observed=[f['name'] for t in real['tables'] for f in t['fks']],
                                   expected=a['fkName'], key='fk_name-ignored-on-to-one-attribute')
 
+# diagrams run on every run, whatever the seed: inheritance x composite-key references x nullability
+_CK = "class Country(db.Entity):\n    code = Required(str)\n    region = Required(int)\n    sites = Set('%s')\n    PrimaryKey(code, region)\n"
+FIXED = [
+    ('subclass-required-composite-ref',
+     _CK % 'Warehouse' + "class Site(db.Entity):\n    name = Required(str)\nclass Warehouse(Site):\n    country = Required(Country)\n    capacity = Required(int)\nclass Office(Site):\n    floor = Optional(int)\n"),
+    ('subclass-optional-composite-ref',
+     _CK % 'Warehouse' + "class Site(db.Entity):\n    name = Required(str)\nclass Warehouse(Site):\n    country = Optional(Country)\n"),
+    ('root-required-nullable-composite-ref',
+     _CK % 'Site' + "class Site(db.Entity):\n    name = Required(str, nullable=True)\n    country = Required(Country, nullable=True)\n"),
+    ('root-required-composite-ref-custom-columns',
+     _CK % 'Site' + "class Site(db.Entity):\n    country = Required(Country, columns=['c_code', 'c_region'], index='ix_site_country', fk_name='fk_site_country')\n"),
+    ('sub-subclass-composite-ref-and-key',
+     _CK % 'Depot' + "class Site(db.Entity):\n    name = Required(str, unique=True)\nclass Warehouse(Site):\n    capacity = Required(int)\nclass Depot(Warehouse):\n    country = Required(Country)\n    tag = Required(str)\n    composite_key(country, tag)\n"),
+    ('composite-pk-with-relation-and-one-to-one',
+     "class Person(db.Entity):\n    first = Required(str)\n    last = Required(str)\n    passport = Optional('Passport')\n    stamps = Set('Stamp')\n"
+     "    spouse_of = Set('PersonX', reverse='spouse')\n    PrimaryKey(first, last)\n"
+     "class Passport(db.Entity):\n    owner = Required(Person)\n    number = Required(int)\n    visas = Set('Visa')\n    PrimaryKey(owner, number)\n"
+     "class Visa(db.Entity):\n    passport = Required(Passport)\n    stamps = Set('Stamp')\n"
+     "class Stamp(db.Entity):\n    visas = Set(Visa)\n    holder = Optional(Person, nullable=True)\n"
+     "class PersonX(Person):\n    spouse = Required(Person, reverse='spouse_of')\n"),
+    ('m2m-composite-self',
+     "class Node(db.Entity):\n    a = Required(int)\n    b = Required(str)\n    links = Set('Node', reverse='links')\n    out = Set('Node', reverse='inc')\n    inc = Set('Node', reverse='out')\n    PrimaryKey(a, b)\nclass Leaf(Node):\n    parent = Required(Node, reverse='leaves')\n"
+     .replace("    PrimaryKey(a, b)\n", "    leaves = Set('Leaf', reverse='parent')\n    PrimaryKey(a, b)\n")),
+]
+
 def diagrams(ctx):
     rng = ctx.rng
     n = ctx.scale(140, 2500)
-    specs = [gen_spec(rng, ctx.thorough) for _ in range(n)]
+    specs = [{'focus': 'fixed:' + name, 'src': src} for name, src in FIXED]
+    for _ in range(n):
+        spec = gen_spec(rng, ctx.thorough); spec['src'] = diagram_src(spec); specs.append(spec)
     jobs = []   # (spec, src, dialect, res)
     for spec in specs:
-        src = diagram_src(spec)
+        src = spec['src']
         for dialect in DIALECTS:
-            res = run_real_mapping(spec, dialect, sqlite_real=(dialect == 'sqlite'))
+            res = run_real_mapping(src, dialect, sqlite_real=(dialect == 'sqlite'))
             jobs.append((spec, src, dialect, res))
     reqs = []; idx = []
     for i, (spec, src, dialect, res) in enumerate(jobs):
@@ -878,7 +939,7 @@ def witnesses(ctx):
             ctx.note('length witness %s: all derived names now fit' % kind)
     # Oracle: sequence / trigger names derived from a table name that fits
     src = 'class CustomerOrderLineItemDiscounts(db.Entity):\n    x = Required(str)\n'
-    res = run_real_mapping_src(src, 'oracle')
+    res = run_real_mapping(src, 'oracle')
     ctx.case(['witness', 'oracle-sequence'], kind='witness')
     if 'ok' in res.get('outcome', {}): ddl_oracle(ctx, None, src, 'oracle', res, res['decls'])
     # creation order: a table that merely depends on a cycle
@@ -924,7 +985,7 @@ def replay(ctx, data):
     src = inp.get('source') if isinstance(inp, dict) else None
     if src:
         dialect = inp.get('dialect', 'sqlite')
-        res = run_real_mapping_src(src, dialect, sqlite_real=(dialect == 'sqlite'))
+        res = run_real_mapping(src, dialect, sqlite_real=(dialect == 'sqlite'))
         ctx.case(['replay', dialect, src], kind='replay')
         if 'ok' in res.get('outcome', {}):
             if dialect == 'sqlite': sqlite_oracle(ctx, None, src, res, None)
